@@ -10,6 +10,7 @@ column-table codec `mc.ref.tle_codec`:
            both lines: each must be rejected;
 * offgrid  orbits whose elements lie between printable values: written lines are 69 columns,
            checksummed, correctly rounded and parse back to the elements within half a printed unit;
+* wargs    the writer's identification arguments / defaults (name, norad_id, cospar_id);
 * fs       every text assembled from <= 3 entries (valid 2-line / 3-line, bad checksum, bad length,
            comment, blank): `Tle.from_string` yields exactly the valid entries, in order.
 """
@@ -35,10 +36,10 @@ CLAIM = dict(
 RULE = (
     "rt: one case per TLE text (index tuple over 15 field alphabets, <= k non-base fields), distinct by construction; "
     "non-trivial = at least one field differs from the base element set. corrupt: one case per (TLE, line, column, mutation). "
-    "offgrid: one case per (field, grid value, offset). fs: one case per (sequence of <= 3 entry kinds, error mode)"
+    "offgrid: one case per (field, grid value, offset). wargs: one case per (orbit attributes, keyword set). fs: one case per (sequence of <= 3 entry kinds, error mode)"
 )
 BOUNDS = {
-    "quick": "rt: <= 3 deviating fields; corruptions of every TLE with <= 1 deviating field; offgrid: all single-field offsets; fs: all sequences of <= 3 of 10 entry kinds x 3 modes",
+    "quick": "rt: <= 3 deviating fields; corruptions of every TLE with <= 1 deviating field; offgrid: all single-field offsets; wargs: 2 orbits x 7 argument sets; fs: all sequences of <= 3 of 10 entry kinds x 3 modes",
     "thorough": "rt: <= 4 deviating fields; corruptions of every TLE with <= 2 deviating fields; offgrid and fs as quick",
 }
 ASSUMPTIONS = [
@@ -130,6 +131,7 @@ def units(tier, seed):
     for j in range(cparts):
         u.append((cfg, dict(part="corrupt", bound=co_bound, j=j, parts=cparts)))
     u.append((cfg, dict(part="offgrid")))
+    u.append((cfg, dict(part="wargs")))
     for mode in FS_MODES:
         u.append((cfg, dict(part="fs", mode=mode)))
     return u
@@ -157,6 +159,9 @@ def run_unit(p, t):
     elif p["part"] == "offgrid":
         for case in offgrid_cases():
             check_offgrid(case, t)
+    elif p["part"] == "wargs":
+        for case in wargs_cases():
+            check_wargs(case, t)
     elif p["part"] == "fs":
         for n in range(0, 4):
             for kinds in itertools.product(FS_KINDS, repeat=n):
@@ -172,6 +177,8 @@ def replay(case, t):
         check_offgrid(case, t)
     elif case["part"] == "fs":
         check_fs(case, t)
+    elif case["part"] == "wargs":
+        check_wargs(case, t)
 
 
 # ---------------------------------------------------------------------------
@@ -413,7 +420,7 @@ def check_corruption(case, t):
     text = (name + "\n" if name is not None else "") + m1 + "\n" + m2
     t.states_add(1)
     t.ev((tuple(case["idx"]), ln, pos, kind, arg))
-    fld = _col_field(ln, pos)
+    fld = _col_field(ln, pos) if kind == "digit" else "any-column"  # length / line-number errors: one pattern per line
     what = {"digit": "a line with a corrupted digit", "drop": "a line of wrong length (68)", "double": "a line of wrong length (70)",
             "linenumber-checksum-fixed": "a line with a wrong line number"}[kind]
     try:
@@ -545,6 +552,69 @@ def check_offgrid(case, t):
     t.outcome(("offgrid", fld, o == [e1, e2]))
     if delta == OFF_DELTAS[2]:
         t.sample(dict(case, written=o))
+
+
+# ---------------------------------------------------------------------------
+# wargs: identification arguments / defaults of the writer
+
+WARGS_ATTRS = [None, dict(name="ISS (ZARYA)", norad_id=25544, cospar_id="1998-067A")]
+WARGS_KW = [
+    {},
+    dict(name="SAT X"),
+    dict(norad_id=42),
+    dict(norad_id="00042"),
+    dict(cospar_id="2000-001A"),
+    dict(cospar_id="1957-001ABC"),
+    dict(name="SAT X", norad_id=42, cospar_id="2000-001A"),
+]
+
+
+def wargs_cases():
+    return [dict(part="wargs", attrs=a, kw=k) for a in range(len(WARGS_ATTRS)) for k in range(len(WARGS_KW))]
+
+
+def check_wargs(case, t):
+    """Tle.from_orbit(orbit, name=, norad_id=, cospar_id=) on orbits with / without identification attributes."""
+    from datetime import datetime
+    from mc.ref import tle_codec as tc
+    from beyond.dates import Date
+    from beyond.io.tle import Tle
+    from beyond.orbits import Orbit
+
+    attrs = WARGS_ATTRS[case["attrs"]] or {}
+    kw = WARGS_KW[case["kw"]]
+    t.states_add(1)
+    t.ev((case["attrs"], case["kw"]))
+    name, l1, l2 = build_text([0] * NF)
+    d2r = math.pi / 180
+    six = [51.6421 * d2r, 216.9905 * d2r, 0.0003381, 87.7267 * d2r, 22.6472 * d2r, 15.54198229 * 2 * math.pi / 86400]
+    data = dict(bstar=0.58526e-4, ndot=0.00003442 * 2, ndotdot=0.0, element_nb=999, revolutions=99798, type=0, **attrs)
+    # the model's expectation: explicit argument > orbit attribute > default (99999 / blank designator / no name line)
+    e_name = kw.get("name", attrs.get("name"))
+    e_norad = kw.get("norad_id", attrs.get("norad_id", 99999))
+    e_cospar = kw.get("cospar_id", attrs.get("cospar_id", ""))
+    f = {n: FIELDS[c][1][0][0] for c, n in enumerate(NAMES) if n != "name"}
+    f["satnum"] = "%05d" % int(e_norad)
+    f["desig"] = (e_cospar[2:4] + e_cospar[5:]) if e_cospar else ""
+    e1, e2 = tc.encode(f)
+    expected = (e_name + "\n" if e_name else "") + e1 + "\n" + e2
+    try:
+        orb = Orbit(six, Date(datetime(2016, 5, 3, 13, 20, 47, 630976)), "TLE", "TEME", "Sgp4", **data)
+        w = Tle.from_orbit(orb, **kw)
+        out = str(w)
+        t.trans(2)
+    except Exception as e:
+        t.fail("tle/writer-args/raises/" + ("with-ids" if attrs else "without-ids"), "an orbit can be written with explicit / default identification",
+               case, expected, repr(e))
+        return
+    t.outcome(("wargs", out == expected))
+    if out != expected:
+        t.fail("tle/writer-args/" + ("+".join(sorted(kw)) or "defaults") + "/" + ("with-ids" if attrs else "without-ids"),
+               "identification fields of the written TLE: explicit argument, else orbit attribute, else default", case, expected, out)
+        return
+    if w.norad_id != int(e_norad) or w.cospar_id != e_cospar or w.name != (e_name or ""):
+        t.fail("tle/writer-args/parse-back", "written identification parses back", case, [int(e_norad), e_cospar, e_name or ""],
+               [w.norad_id, w.cospar_id, w.name])
 
 
 # ---------------------------------------------------------------------------
